@@ -10,7 +10,9 @@ TEMPLATES = ["namelist /grp/ {I}{S}", "integer :: {I}{S}", "integer, dimension({
              "subroutine {I}({I}, {I}){S}", "public :: {I}, {I}{S}", "common /blk/ {I}{S}", "procedure :: {I} => {I}{S}", "generic :: {I} => {I}, {I}{S}", "final :: {I}{S}",
              "interface {I}{S}", "enumerator :: {I} = 1{S}", "{I} = {I}({I}){S}", "100 format({I}){S}", "module procedure {I}, {I}{S}", "end subroutine {I}{S}", "x = '{I}' // {I}{S}",
              "character(len={I}, kind={I}) :: {I}{S}", "!! {I} @note {I}{S}", "{I}: {I}{S}", "    {I}{S}", "[[{I}({I}):{I}({I})]]{S}", "      {I}{S}", "c {I}{S}", "|{I}|{S}",
-             "pure elemental function {I}({I}) result({I}) bind(c, name='{I}'){S}", "associate ({I} => {I}%{I}){S}", "if ({I}({I})) call {I}%{I}({I}){S}"]
+             "pure elemental function {I}({I}) result({I}) bind(c, name='{I}'){S}", "associate ({I} => {I}%{I}){S}", "if ({I}({I})) call {I}%{I}({I}){S}",
+             # a quote that is never closed (arbitrary text, a literal cut off by a truncation), followed by a long tail
+             "print *, 'this isn't closed {I}{S}", 'msg = "never closed {I} {I}{S}', "This file isn't Fortran at all {I}{S}"]
 SPOILERS = ["", "(1:2)", "%c", " = 1", " /g2/ x", " !", ")", " &", ", ", "::", "$", "\x01", " @", "'", '"', "]]", "|", ";"]
 IDS = ["a" * 40, "ab_" * 14, "a1" * 20, "a, " * 14 + "a", "a " * 20]
 
